@@ -38,6 +38,15 @@ inductive Fut
   | halt
 deriving Repr
 
+/-- a plain script term: nothing has been started yet (what the parser produces) -/
+def Fut.isSrc : Fut → Bool
+  | .sleeping _ => false
+  | .timeoutRun _ _ => false
+  | .timeout _ e => e.isSrc
+  | .select a b => a.isSrc && b.isSrc
+  | .seq a b => a.isSrc && b.isSrc
+  | _ => true
+
 inductive Named
   | sl (s : Sleep)
   | iv (i : Interval)
@@ -115,6 +124,19 @@ def pollSleep (s : Sleep) (c : Ctx) (kind : String) : Option Fut × Ctx :=
   let c := c.emit ops
   if r then (none, c.fin kind s.deadline (s.since c.now) true) else (some (.sleeping s'), c)
 
+/-- `Timeout::poll` after the inner future was polled with result `r`: `Ok` if it is ready, else the
+    delay decides (`Elapsed` drops the inner future) -/
+def timeoutStep (s : Sleep) : Option Fut × Ctx → Option Fut × Ctx
+  | (none, c1) =>
+    let (s', ops, _) := Timeout.poll true s c1.tid c1.now
+    (none, ((c1.emit ops).emit s'.drop).obs "ok")
+  | (some e', c1) =>
+    let (s', ops, r) := Timeout.poll false s c1.tid c1.now
+    let c2 := c1.emit ops
+    match r with
+    | some _ => (none, ((c2.emit (dropFut e')).emit s'.drop).fin "el" s.deadline (s.since c1.now) true)
+    | none => (some (.timeoutRun s' e'), c2)
+
 /-- one `Future::poll`; `none` = `Poll::Ready` -/
 def poll : Fut → Ctx → Option Fut × Ctx
   | .nop, c => (none, c)
@@ -125,29 +147,8 @@ def poll : Fut → Ctx → Option Fut × Ctx
   | .sleeping s, c => pollSleep s c "s"
   | .timeout d e, c =>
     -- `timeout(d, fut)` creates its `Sleep` when called
-    let s : Sleep := { id := c.nextId, deadline := c.now + d }
-    let c := { c with nextId := c.nextId + 1 }
-    match poll e c with
-    | (none, c1) =>
-      let (s', ops, _) := Timeout.poll true s c1.tid c1.now
-      ((none : Option Fut), ((c1.emit ops).emit s'.drop).obs "ok")
-    | (some e', c1) =>
-      let (s', ops, r) := Timeout.poll false s c1.tid c1.now
-      let c2 := c1.emit ops
-      match r with
-      | some _ => (none, ((c2.emit (dropFut e')).emit s'.drop).fin "el" s.deadline (s.since c1.now) true)
-      | none => (some (.timeoutRun s' e'), c2)
-  | .timeoutRun s e, c =>
-    match poll e c with
-    | (none, c1) =>
-      let (s', ops, _) := Timeout.poll true s c1.tid c1.now
-      (none, ((c1.emit ops).emit s'.drop).obs "ok")
-    | (some e', c1) =>
-      let (s', ops, r) := Timeout.poll false s c1.tid c1.now
-      let c2 := c1.emit ops
-      match r with
-      | some _ => (none, ((c2.emit (dropFut e')).emit s'.drop).fin "el" s.deadline (s.since c1.now) true)
-      | none => (some (.timeoutRun s' e'), c2)
+    timeoutStep { id := c.nextId, deadline := c.now + d } (poll e { c with nextId := c.nextId + 1 })
+  | .timeoutRun s e, c => timeoutStep s (poll e c)
   | .select a b, c =>
     match poll a c with
     | (none, c1) => (none, (c1.emit (dropFut b)).obs "w0")
@@ -287,6 +288,13 @@ structure Mod where
   fired : Nat := 0
   emptyFront : Nat := 0
   ties : Nat := 0
+  crowd : Nat := 0          -- one activation woke ≥ 3 entries
+  resetLater : Nat := 0     -- `Sleep::reset` of a registered sleep to a later deadline
+  resetEarlier : Nat := 0
+  dropReg : Nat := 0        -- handle drops of registered sleeps (drop, select loser, timeout, task end)
+  staleWake : Nat := 0      -- wake-up events that woke nobody
+  staleInc : Nat := 0       -- … in a later incarnation than the first (wake-up of a previous incarnation)
+  wakeInactive : Nat := 0   -- wake-up events handled while the module was shut down
 
 def spawnAll (progs : List (List (Nat × Fut))) : List Task := progs.map fun p => { lines := p }
 
@@ -306,6 +314,15 @@ def Mod.finish (nx : List Slot → Option Nat) (m : Mod) (now : Nat) (k : Kind) 
                            restartAt := if k = .restart then none else m.restartAt, last := now, log := a.log,
                            fired := m.fired + nwoken,
                            ties := m.ties + (if nwoken ≥ 2 then 1 else 0),
+                           crowd := m.crowd + (if nwoken ≥ 3 then 1 else 0),
+                           resetLater := m.resetLater + (a.ops.filter fun o => match o with
+                             | .reset h _ d' => h < d' | _ => false).length,
+                           resetEarlier := m.resetEarlier + (a.ops.filter fun o => match o with
+                             | .reset h _ d' => d' < h | _ => false).length,
+                           dropReg := m.dropReg + (a.ops.filter (·.isRemove)).length,
+                           staleWake := m.staleWake + (if k = .wake ∧ nwoken = 0 then 1 else 0),
+                           staleInc := m.staleInc + (if k = .wake ∧ nwoken = 0 ∧ inc ≥ 1 then 1 else 0),
+                           wakeInactive := m.wakeInactive + (if k = .wake ∧ active = false then 1 else 0),
                            emptyFront := m.emptyFront + (if emptyBeforeLive t3.pending then 1 else 0) }
   match a.shut, k with
   | _, .simEnd => (m1, [ev1])
